@@ -240,8 +240,18 @@ func swCase(kind string, key []byte, segs [][]byte, closes int, after [][]byte, 
 // maxReads). truth, when non-nil, is the original plaintext: released bytes
 // must be a prefix of it and EOF is allowed only if ct == orig.
 func srCase(kind string, key, ct []byte, fail bool, pieces []int, eofWith bool, sizes []int, truth, origCT []byte, note string) *h.Case {
+	return srCaseWrap(kind, key, ct, fail, pieces, eofWith, sizes, truth, origCT, note, nil)
+}
+
+// srCaseWrap is srCase with the scheduled source seen through `wrap` (nil: as it is): a wrapper may add reads that
+// deliver nothing, repeat or drop end conditions … — whatever the model's source (bytes + kind of end) abstracts from.
+func srCaseWrap(kind string, key, ct []byte, fail bool, pieces []int, eofWith bool, sizes []int, truth, origCT []byte, note string, wrap func(*h.SchedReader) io.Reader) *h.Case {
 	src := &h.SchedReader{Data: append([]byte(nil), ct...), Pieces: pieces, Fail: fail, EOFWith: eofWith}
-	r, err := verifhook.NewStreamReader(key, src)
+	var rsrc io.Reader = src
+	if wrap != nil {
+		rsrc = wrap(src)
+	}
+	r, err := verifhook.NewStreamReader(key, rsrc)
 	if err != nil {
 		return &h.Case{Kind: kind, Impl: "newreader-error", Oracle: "NewReader failed: " + err.Error()}
 	}
